@@ -10,6 +10,7 @@ import (
 
 	flatbuffers "github.com/google/flatbuffers/go"
 
+	"github.com/newrelic/newrelic-php-agent/daemon/internal/newrelic/collector"
 	"github.com/newrelic/newrelic-php-agent/daemon/internal/newrelic/protocol"
 )
 
@@ -52,6 +53,25 @@ func vWireOp(t []string) string {
 		}
 		m := protocol.GetRootAsMessage(rep, 0)
 		return fmt.Sprintf("reply=tag:%d", m.DataType())
+	case "txnfields":
+		// wire txnfields <transaction spec>: a Transaction message with any combination of its optional fields, decoded by the real
+		// FlatTxn.AggregateInto; what arrived is reported field by field
+		msg := vBuildTxn("r", t)
+		h := NewHarvest(time.Now(), collector.NewHarvestLimits(nil))
+		func() {
+			defer func() { recover() }()
+			FlatTxn(msg).AggregateInto(h)
+		}()
+		pk := 0
+		if h.PhpPackages != nil && len(h.PhpPackages.data) > 0 {
+			pk = 1
+		}
+		nl := 0
+		if h.LogEvents != nil {
+			nl = len(h.LogEvents.LogForwardingLabels)
+		}
+		return fmt.Sprintf("ev=%d ce=%d se=%d le=%d ee=%d err=%d sql=%d pkgs=%d labels=%d", int(h.TxnEvents.NumSeen()), int(h.CustomEvents.NumSeen()), int(h.SpanEvents.NumSeen()),
+			int(h.LogEvents.NumSeen()), int(h.ErrorEvents.NumSeen()), len(*h.Errors), len(h.SlowSQLs.slowSQLs), pk, nl)
 	case "txnmetrics":
 		// wire txnmetrics max=<n> name=<txn> m=<metrics>: the message as the agent builds it, its metrics decoded by the real
 		// aggregateMetrics into a table of capacity n
